@@ -144,7 +144,7 @@ func main() {
 	}
 	units = append(units, unit{"render", 0, 2}, unit{"render", 1, 2}, unit{"render", 2, 2}, unit{"render", 3, 3}, unit{"dcache3", 0, 2}, unit{"dcache2", 0, 2})
 	// a cache with a long single-threaded history before the concurrent calls (round 8): sub = lookups already made
-	for _, h := range vlib.Pick(c, []int{1022, 4094}, []int{254, 1022, 4094, 16382, 65534}) {
+	for _, h := range vlib.Pick(c, []int{1022, 4094}, []int{254, 1022, 4094, 16382}) {
 		units = append(units, unit{"cache-history", h, 2})
 	}
 	chunk := 24
